@@ -110,7 +110,6 @@ EXPORT errno_t _memset_s_chk(void *dest, rsize_t dmax, int value, rsize_t n,
         BND_CHK_PTR_BOUNDS(dest, n);
     } else {
         CHK_DEST_MEM_OVR("memset_s", destbos)
-        dmax = destbos;
     }
 
     if (unlikely(value > 255)) {
